@@ -29,6 +29,8 @@ type c03Case struct {
 	End            string           `json:"end,omitempty"`         // "", "fin"
 	LocalHold      *int             `json:"local_hold,omitempty"`  // configured hold time (nil: 90)
 	RemoteHold     *uint16          `json:"remote_hold,omitempty"` // hold time in the remote's OPEN (nil: 90)
+	// Prev: earlier sessions of the same peer (outbound: the same FSM object)
+	Prev []world.PrevSession `json:"prev,omitempty"`
 }
 
 func c03Prop(t *testing.T, r *hx.Run) func(c c03Case) hx.Verdict {
@@ -98,7 +100,13 @@ func c03Prop(t *testing.T, r *hx.Run) func(c c03Case) hx.Verdict {
 				dev = hx.Devf(key, f, a...)
 			}
 		}
-		o, serr := world.Single(t, "10.0.0.1", p, c.Out, nil, func(w *world.World, conn *memnet.Conn) {
+		o, serr := world.SinglePrev(t, "10.0.0.1", p, c.Out, nil, c.Prev, func(w *world.World, conn *memnet.Conn) {
+			evBase := 0
+			for i, e := range w.Rec.Events() {
+				if e.K == "close-" {
+					evBase = i + 1 // the earlier sessions' events
+				}
+			}
 			var stream []byte
 			open := world.RemoteOpen(p, conn, rhold, 0x0a000002).Frame()
 			if c.ShareHandshake && c.ShareOpen {
@@ -138,7 +146,7 @@ func c03Prop(t *testing.T, r *hx.Run) func(c c03Case) hx.Verdict {
 			}
 			w.Advance(time.Duration(c.SleepEstNs) + time.Duration(len(c.Msgs)+1)*time.Duration(c.SleepUpdNs) + time.Millisecond)
 
-			evs := w.Rec.Events()
+			evs := w.Rec.Events()[evBase:]
 			var got [][]byte
 			var estExit, closeEnter int64 = -1, -1
 			nEst, nClose := 0, 0
@@ -220,7 +228,7 @@ func c03Prop(t *testing.T, r *hx.Run) func(c c03Case) hx.Verdict {
 				return
 			}
 			if st.LocalClosed || nClose != 0 {
-				fail("session-ended", "session ended unexpectedly: closed=%v OnClose x%d, last message type %d", st.LocalClosed, nClose, msgs[len(msgs)-1].Type)
+				fail("session-ended", "session ended unexpectedly: closed=%v OnClose x%d, last message type %v", st.LocalClosed, nClose, firstType(msgs[max(len(msgs)-1, 0):]))
 			}
 		})
 		if serr != nil {
@@ -273,6 +281,12 @@ func genC03(rt *rapid.T) c03Case {
 	}
 	if rapid.IntRange(0, 3).Draw(rt, "end") == 0 {
 		c.End = "fin"
+	}
+	if rapid.IntRange(0, 3).Draw(rt, "withprev") == 0 {
+		for i, n := 0, rapid.IntRange(1, 2).Draw(rt, "nprev"); i < n; i++ {
+			c.Prev = append(c.Prev, world.PrevSession{Hold: pick[uint16](rt, "prevhold", 0, 3, 90), End: pick(rt, "prevend", "fin", "cease")})
+		}
+		c.SleepEstNs = 0 // (a sleeping OnEstablished would also hold up the earlier sessions' scripted ends)
 	}
 	// negotiated hold time: 0 (no timers; KEEPALIVEs from the remote are still tolerated), small, default
 	switch rapid.IntRange(0, 5).Draw(rt, "holdkind") {
